@@ -385,6 +385,7 @@ def n1_decision(F, R, M, sn, tfield):
 # ------------------------------------------------------------------------------------------------ N2
 
 def n2_direction(F, R, M, byrole):
+    sdn_fields, pu_fields = set(), set()
     for fid in byrole.get('set_dev_notify', []):
         sg = supergraph(F, fid)
         where = fn_site(F, fid)
@@ -402,6 +403,7 @@ def n2_direction(F, R, M, byrole):
             for disc, _, _ in p.conds:
                 if disc[0] == 'load0' and disc[1][2] and disc[1][2][-1][0] == 'f':
                     flagfields.add(disc[1][2][-1][1])
+        sdn_fields |= flagfields
         for enable in (0, 1):
             for evv in (0, 1):
                 def leaf(t):
@@ -468,6 +470,7 @@ def n2_direction(F, R, M, byrole):
             d = S.operand(swid, sg.nodes[swid].d['discr'])
             if d[0] == 'load' and d[1][2] and d[1][2][-1][0] == 'f' and d[1][2][-1][2] == M.queue_adt and (None in vals or any(x != 0 for x in vals)):
                 flagged = True
+                pu_fields.add(d[1][2][-1][1])
         R.check(inc and flagged, 'N2', '%s:used_event' % fid, site(sg, a.node),
                 'avail.used_event <- post-increment last-used index (%s), under the event-idx flag' % fmt(v),
                 'used_event re-arm is wrong: value=%s (post-increment=%s) guarded-by-flag=%s' % (fmt(mv) if mv else fmt(v), inc, flagged))
@@ -483,6 +486,13 @@ def n2_direction(F, R, M, byrole):
             R.check(o.id not in r, 'N2', '%s:used_event-on-every-ok' % fid, site(sg, o),
                     'with the flag set every Ok path re-arms used_event',
                     'an Ok return of the completion path skips the used_event re-arm although event-idx is on')
+    # sibling agreement: the two event-idx decisions of the driver side (interrupt suppression through avail.flags, re-arming
+    # used_event) are taken on one queue flag - a suppression setting gated by another flag is not what the device reads
+    if sdn_fields and pu_fields:
+        R.check(bool(sdn_fields & pu_fields), 'N2', 'event-idx-flag:one-field', '',
+                'set_dev_notify and pop_used gate their event-idx behaviour on the same queue field',
+                'the avail.flags store is gated by queue field(s) %s but the used_event re-arm by field(s) %s: without event-idx '
+                'the suppression setting is not written' % (sorted(sdn_fields), sorted(pu_fields)))
 
 
 # ------------------------------------------------------------------------------------------------ N3 / N4
